@@ -84,8 +84,11 @@ func (h *harness) codecPhase() {
 	})
 	// felt slices at the array-header boundaries, as plain []felt.Felt, as felt.Slice and inside an event
 	lens := []int{0, 1, 2, 23, 24, 25, 255, 256, 257}
+	// 131072 is the default array-element limit of the generic CBOR decoder (juno configures 10Mi): a code path that
+	// falls back to the default mode only breaks beyond it. Real Sierra programs and CASM bytecode are that long.
+	lens = append(lens, 131071, 131072, 131073)
 	if h.r.Thorough() {
-		lens = append(lens, 65535, 65536, 65537)
+		lens = append(lens, 65535, 65536, 65537, 1<<18 + 1)
 	}
 	for _, l := range lens {
 		for _, stride := range []int{1, 7, 131} {
